@@ -27,7 +27,7 @@ READY = True
 LEVEL_TEXT = ("Machine-checked Coq theorems. Sequential (full, all scripts / n / call counts): Retry makes min(n, first non-retryable attempt) "
               "attempts and reports failures only when no attempt succeeded; Limit(n) runs min(n, calls) times and then returns the last result; "
               "Once runs once and every caller sees its result; Join and PreHook/PostHook run their parts in the documented order. Concurrent "
-              "(partial: invariants over all interleavings of modelled atomic steps): Once exactly once and nobody returns before it finished; adt.Once Do/Resolve (with the `called` flag that is set before the constructor runs) return only after the execution finished, fast-path variant refuted; Operation.Limit's Load/CompareAndSwap retry loop runs min(n, calls) times, no-retry variant refuted; "
+              "(partial: invariants over all interleavings of modelled atomic steps): Once exactly once and nobody returns before it finished; adt.Once Do/Resolve (with the `called` flag that is set before the constructor runs) return only after the execution finished, fast-path variant refuted; Operation.Limit's Load/CompareAndSwap retry loop runs min(n, calls) times, no-retry variant refuted; a launched waiter stays re-waitable after a wait that gave up on its own context (WorkerFuture's pipe.ch state modelled), state-clearing variant refuted; "
               "limitExec runs min(n, calls) times with the cached-output invariant; Lock mutual exclusion; Launch/Signal/StartGroup waiters "
               "return only after the background execution(s) finished. Models tied to /repo by differential correspondence and trace replay on every run.")
 LEVEL_NOTE = ("partial for the concurrent theorems (once_exactly_once_all_see_result, adt_once_do_waits, limit_concurrent_runs_min_n_calls, lock_mutual_exclusion, "
